@@ -205,7 +205,19 @@ class Driver:
         if not lines:
             return []
         data = ("\n".join(lines) + "\n").encode()
-        p = subprocess.run([str(self.bin)], input=data, capture_output=True, timeout=timeout)
+
+        def big_stack():
+            # the models are structurally recursive over octet lists (one frame per octet in the compiled code): a
+            # 16 MiB message of the thorough tier needs far more than the default 8 MiB stack
+            import resource
+            soft, hard = resource.getrlimit(resource.RLIMIT_STACK)
+            want = 16 * 1024 ** 3
+            new = want if hard == resource.RLIM_INFINITY else min(want, hard)
+            try:
+                resource.setrlimit(resource.RLIMIT_STACK, (new, hard))
+            except (ValueError, OSError):
+                pass
+        p = subprocess.run([str(self.bin)], input=data, capture_output=True, timeout=timeout, preexec_fn=big_stack)
         if p.returncode != 0:
             raise RuntimeError("driver failed: " + p.stderr.decode()[-400:])
         out = p.stdout.decode().split("\n")
